@@ -1595,6 +1595,10 @@ bool RegularExpression::doTokenOverlap(const Op* op, Token* token)
             return t1->match(*token->getString());
         case Token::T_RANGE:
             {
+                // the ranges of a negated class are the characters it
+                // excludes: intersecting them says nothing about overlap
+                if (t1->getTokenType() == Token::T_NRANGE)
+                    break;
                 try
                 {
                     RangeToken tempRange(t1->getTokenType(), fMemoryManager);
